@@ -187,7 +187,8 @@ fn apply<'s>(ds: &'s DS<'s>, op: &Value) -> Out<'s> {
             all!(ds, d => wrap1(d.shuffle(&mut rng)))
         }
         "boot" | "boots" | "bootf" => {
-            if ds.nsamples() == 0 {
+            // (the columns drawn by bootstrap_features cannot be read off an empty result: not attempted)
+            if name == "bootf" && ds.nsamples() == 0 {
                 return Out::StopEmpty;
             }
             let mut rng = SmallRng::seed_from_u64(seed().wrapping_add(7919 * (a as u64) + 31 * (b as u64) + 1));
@@ -204,7 +205,7 @@ fn apply<'s>(ds: &'s DS<'s>, op: &Value) -> Out<'s> {
             v.sort_by_key(|x| x.0);
             Out::Results(v)
         }, else Out::NotApplicable),
-        "chunk" => all!(ds, d => { let v: Vec<_> = d.sample_chunks(a as usize).collect(); wrapn(v) }),
+        "chunk" => all!(ds, d => { let v: Vec<_> = d.sample_chunks(a as usize).take(d.nsamples() + 2).collect(); wrapn(v) }),
         "siter" => all!(ds, d => {
             let v: Vec<Value> = d.sample_iter().map(|(x, y)| json!([cells(&x), y.iter().map(|l| l.to_i()).collect::<Vec<i64>>()])).collect();
             Out::Pairs(Value::Array(v))
@@ -213,8 +214,8 @@ fn apply<'s>(ds: &'s DS<'s>, op: &Value) -> Out<'s> {
         "fiter" => all!(ds, d => { let v: Vec<_> = d.feature_iter().collect(); wrapn(v) }),
         "map" => all!(ds, d => wrap1(d.clone().map_targets(|x| map_fn(a, x.to_i())))),
         "toowned" => all!(ds, d => wrap1(d.to_owned())),
-        "single" => on!(ds, [OAU2], d => if d.ntargets() == 1 { wrap1(d.clone().into_single_target()) } else { Out::NotApplicable },
-            else Out::NotApplicable),
+        // called for any number of target columns: with t != 1 the documented outcome is a panic
+        "single" => on!(ds, [OAU2], d => wrap1(d.clone().into_single_target()), else Out::NotApplicable),
         _ => panic!("unknown op {}", name),
     }
 }
